@@ -33,12 +33,12 @@ TIMEOUT = {"quick": 1200, "thorough": 3500}
 
 
 def gen_cases(tier: str, seed: int) -> list[dict[str, Any]]:
-    n = 16 if tier == "quick" else 400
+    n = 16 if tier == "quick" else 3000
     cases = [dict(seed=seed, idx=i) for i in range(n)]
     # restart points built to satisfy the F17 predicate (most recently released particles never appear in the warm-start file)
-    cases += [dict(seed=seed, idx=10**6 + i, gap=True) for i in range(2 if tier == "quick" else 20)]
+    cases += [dict(seed=seed, idx=10**6 + i, gap=True) for i in range(2 if tier == "quick" else 60)]
     # restart points where the newest particles are in the warm-start file but dead in its last record (older ones alive)
-    cases += [dict(seed=seed, idx=2 * 10**6 + i, newest_dead=True) for i in range(4 if tier == "quick" else 40)]
+    cases += [dict(seed=seed, idx=2 * 10**6 + i, newest_dead=True) for i in range(4 if tier == "quick" else 200)]
     return cases
 
 
